@@ -353,6 +353,9 @@ def final_ret(fr, acc, default):
     shape = fr.ret
     if shape == 'nonjson':
         return NotJson()
+    if shape == 'tuple':
+        # JSON-representable but not sanitized: must come back normalised
+        return {'acc': acc, 'val': (1, (2, 3.0), {4: 'x', None: [True]})}
     if isinstance(shape, list) and shape and shape[0] == 'val':
         return {'acc': acc, 'val': shape[1]}
     if isinstance(shape, list) and shape and shape[0] == 'raw':
